@@ -19,7 +19,7 @@ RULE = ("Each case draws a fault-free doer forest (all kinds, DoDoers of any toc
 COMPONENTS = dict(real=["hio.base.doing.Doist.do", "DoDoer.do", "Tymer (limit)", "all doer kinds"], stub=["nothing (virtual time)"])
 ASSUMPTIONS = ["CPython 3.12: generator.close() returns None, so a force-closed doer keeps done False",
                "limit 0 is documented as 'no limit' and is not generated"]
-PROBES = ["limit_not_multiple_of_tock", "limit_hit_with_alive", "completed_in_limit_cycle", "returned_none", "returned_false",
+PROBES = ["empty_doer_set_over_stale_doers", "limit_not_multiple_of_tock", "limit_hit_with_alive", "completed_in_limit_cycle", "returned_none", "returned_false",
           "all_completed_in_enter", "float_and_exact_limit_cycle_differ"]
 BOUNDS = dict(quick=dict(nodes=8, depth=3, steps=6), thorough=dict(nodes=14, depth=4, steps=10))
 TIERS = dict(quick=dict(cases=20000, wall=40.0), thorough=dict(cases=1200000, wall=420.0))
@@ -31,6 +31,7 @@ def feat_for(tier):
     f["enter"] = dict(ok=14, raise_=0, ret=1)
     f["limit_prob"] = (2, 3)
     f["max_steps"] = 6
+    f["allow_empty"] = True
     if tier == "thorough":
         f.update(max_nodes=14, max_depth=4, max_steps=10, max_roots=4)
     return f
@@ -65,7 +66,12 @@ def run_case(tape, tier):
         elif e[0] == "clean" and e[1] in roots:
             fin[e[1]] = cyc if cyc is not None else -1
     all_complete = all(r in fin for r in roots)
-    c_done = max(fin.values()) if all_complete else None     # -1: everything completed in enter
+    c_done = (max(fin.values()) if fin else -1) if all_complete else None     # -1: everything completed in enter (or empty doer set)
+    entered_stale = [n for n in prog.get("stale", []) if run.st[n].entered]
+    if entered_stale:
+        res.violate("stale-doers-ran", "do(doers=[]) entered doers %s that the scheduler held from an earlier use" % entered_stale)
+    if "stale" in prog:
+        res.probes["empty_doer_set_over_stale_doers"] += 1
     n = run.cycles
     res.comparisons += 1
     # expected number of cycles
@@ -134,6 +140,7 @@ def run_case(tape, tier):
     forced = any(e[0] == "cease" for e in tr)
     if L is not None and forced:
         res.probes["limit_hit_with_alive"] += 1
+        res.faults["limit_expiry_force_close"] += 1
     if L is not None and all_complete and c_done is not None and c_done + 1 == n and ends and ends[-1] >= t0 + L:
         res.probes["completed_in_limit_cycle"] += 1
     if c_done == -1:
